@@ -49,7 +49,9 @@ RULE = ('seeded generator: node ids distinct positive (dense / sparse / 10^6 / 2
         'groups (plus the one-group-per-element layout), with / without ALL; optional one-material SOLID/SHELL section '
         'on a group or ALL; optional initial temperature; coordinates = 13-significant-digit decimals (exponents up to '
         '+-300, signed zeros) or arbitrary doubles; each case additionally in G1 blank / G2 # comment / G3 whitespace / '
-        'G4 split-block variants. distinct = distinct (mesh, extras) after canonical JSON; non-trivial = at least one '
+        'G4 split-block variants. Stream same-object-twice: the same generator (every second case with prisms), ONE '
+        'FEMData object written 2-3 times (another directory each time, or one directory with overwrite=True), every '
+        'written file set read back and compared, the object\'s own mesh compared with its state before each write. distinct = distinct (mesh, extras) after canonical JSON; non-trivial = at least one '
         'element and ids not 1..n ascending or more than one type or extras present')
 ASSUMPTIONS = [
     'ids < 2^53 (the reader converts ids through float64)',
@@ -702,6 +704,83 @@ def outside_streams(ctx, n):
             ctx.count('outside:temperature-in-own-order:raises:' + type(e).__name__)
 
 
+# ------------------------------------------------------------------ stream "same object written twice"
+
+def canon_obj(fd):
+    """the mesh held by a live FEMData object (what the property calls "the mesh"): node ids and coordinates in storage
+    order, per-type element ids and connectivity, element groups - floats by bit pattern"""
+    return {
+        'node ids': [int(i) for i in fd.nodes.ids],
+        'coordinates': [[float(x).hex() for x in r] for r in np.asarray(fd.nodes.data)],
+        'elements': {str(t): [[int(i), [int(x) for x in r]] for i, r in zip(a.ids, a.data)] for t, a in fd.elements.items()},
+        'element groups': {str(k): [int(x) for x in np.asarray(v).ravel()] for k, v in fd.element_groups.items()},
+    }
+
+
+def twice_check(ctx, case, n_writes=2, same_dir=False):
+    """ONE FEMData object written n_writes times (another directory each time, or the same one with overwrite=True);
+    every written file set is read back and must be the mesh of the case (round trip + FrontISTR orientation), and the
+    object's own mesh must be what it was before the write (a writer that alters the mesh it is handed writes a
+    different mesh the next time).  -> [(clause, detail)]"""
+    from femio import FEMData
+    bad = []
+    fd = build_fem(case)
+    before = canon_obj(fd)
+    for k in range(1, n_writes + 1):
+        d = ctx.tmp / ('tw' if same_dir else f'tw{k}')
+        if d.exists() and not (same_dir and k > 1):
+            shutil.rmtree(d)
+        d.mkdir(parents=True, exist_ok=True)
+        try:
+            X.quiet(fd.write, 'fistr', d / 'mesh', overwrite=same_dir and k > 1)
+            lines = (d / 'mesh.msh').read_text().split('\n')[:-1]
+        except Exception as e:  # noqa
+            bad.append((f'write{k}:write-raises:{type(e).__name__}', f'write number {k} of the same object raised {e!r}'))
+            break
+        try:
+            got = canon_real(X.quiet(FEMData.read_files, 'fistr', [str(d / 'mesh.msh'), str(d / 'mesh.cnt')]))
+        except Exception as e:  # noqa
+            bad.append((f'write{k}:read-raises:{type(e).__name__}', f'reading the files of write number {k} raised {e!r}'))
+            break
+        for clause, detail in oracle_roundtrip(case, got) + oracle_orientation(case, lines):
+            bad.append((f'write{k}:{clause}', f'write number {k} of the same object -> read: ' + detail))
+        after = canon_obj(fd)
+        for part in before:
+            if after[part] != before[part]:
+                what = ''
+                if isinstance(before[part], dict):
+                    key = next(x for x in sorted(set(before[part]) | set(after[part])) if before[part].get(x) != after[part].get(x))
+                    b, a = before[part].get(key), after[part].get(key)
+                    row = next((j for j, (p, q) in enumerate(zip(b or [], a or [])) if p != q), None)
+                    what = f' ({key}' + (f', row {row}: {b[row]} -> {a[row]})' if row is not None else ')')
+                bad.append((f'object-altered-by-write:{part}', f'write number {k} changed the {part} of the FEMData object '
+                                                               f'it was called on{what}'))
+        if bad:
+            break
+    return bad
+
+
+def twice_stream(ctx, n):
+    """property oracle on a history of writes of one object (inside the quantifier: "writing any mesh ... and reading
+    the written files back" holds for every write, not only for the first one of a fresh object)"""
+    rnd = ctx.rng
+    for k in range(n):
+        must = 'prism' if k % 2 == 0 else None     # the only type whose rows the writer permutes
+        for _ in range(60):
+            case = gen_case(rnd)
+            if must is None or must in case['blocks']:
+                break
+        n_writes, same_dir = rnd.choice([2, 2, 3]), rnd.random() < .3
+        ctx.case(('twice', n_writes, same_dir, C.json.dumps(case, sort_keys=True)), nontrivial=True)
+        ctx.count('same-object-twice: cases')
+        ctx.count(f'same-object-twice: {n_writes} writes, ' + ('same directory (overwrite=True)' if same_dir else 'another directory each'))
+        ctx.count('same-object-twice: stream ' + case['kind'])
+        for t in case['blocks']:
+            ctx.count('same-object-twice: type ' + t)
+        for clause, detail in twice_check(ctx, case, n_writes, same_dir):
+            ctx.fail(signature('same-object', clause), detail, {'mesh': case, 'twice': {'n_writes': n_writes, 'same_dir': same_dir}}, detail)
+
+
 def run(ctx):
     n = ctx.n(300, 3000)
     if ctx.driver is None:
@@ -734,6 +813,8 @@ def run(ctx):
         run_variant(ctx, case, d, lines, got, kind, finding=FINDING_STREAMS[kind])
         done[kind] += 1
     outside_streams(ctx, ctx.n(6, 40))
+    # the same FEMData object written two or three times (half of the cases with prisms)
+    twice_stream(ctx, ctx.n(50, 400))
     # which ReadCfg does the working tree implement?  (upstream: bang=0, merge=0; both repairs: 1, 1)
     if ctx.driver is not None:
         det = {}
@@ -749,6 +830,9 @@ def replay(ctx, obj):
     inp = obj['input']
     case = inp['mesh']
     res = {'case': {k: case[k] for k in ('kind', 'order', 'id_style')}}
+    if 'twice' in inp:      # stream "same object written twice"
+        bad = twice_check(ctx, case, inp['twice']['n_writes'], inp['twice']['same_dir'])
+        return {**res, 'same_object_written_repeatedly': [list(b) for b in bad], 'fails': bool(bad)}
     try:
         d, lines = real_write(ctx, case)
         got = real_read(ctx, lines, cnt_from=d)
